@@ -687,6 +687,9 @@ func exploreEsm(lg *sim.Log, seed int64, depth, maxNodes int, withStable bool) {
 			}
 			a.On = false
 		}
+		if !withStable { // second variant: the V1 auction that collected more than its principal gets the LOWER id (closed out first, while the other one's proceeds are still in custody)
+			a = swapV1(a)
+		}
 		rs := w0.Do(a)
 		par, _ = w0.Record(lg, par, run, root, a, rs)
 	}
@@ -696,5 +699,31 @@ func exploreEsm(lg *sim.Log, seed int64, depth, maxNodes int, withStable bool) {
 		{A: "V1Bid", U: "u2", V: 1, D: "ucm", X: 20}, {A: "Bid", U: "u2", V: 1, D: "ust", X: 100},
 		{A: "Deposit", U: "u2", P: p2, V: 4, X: 5}, {A: "V1Liquidate", U: "u1", V: 4}, {A: "Price", D: "uat", Y: 1, On: true},
 	}
+	if !withStable {
+		for i := range acts {
+			if acts[i].A == "V1Bid" {
+				acts[i] = swapV1(acts[i])
+			}
+		}
+	}
 	bfs(lg, run, root, par, w0, acts, depth, maxNodes)
+}
+
+// swapV1 exchanges the roles of the two first-generation liquidations of the shutdown exploration: vault 3 is liquidated first (auction 1), vault 1 second (auction 2).
+func swapV1(a Act) Act {
+	switch a.A {
+	case "V1Liquidate":
+		if a.V == 1 {
+			a.V = 3
+		} else if a.V == 3 {
+			a.V = 1
+		}
+	case "V1Bid":
+		if a.V == 1 {
+			a.V = 2
+		} else if a.V == 2 {
+			a.V = 1
+		}
+	}
+	return a
 }
